@@ -32,7 +32,7 @@ ASSUMPTIONS = [
     "non-smooth points (force clamped by forcerange / actuatorfrcrange, muscle curve knots, |v| kinks of the fluid model) are "
     "detected by disagreement of the two FD step sizes and skipped, counted per entry",
     "mjd_transitionFD: RK4 and models with delays are rejected by documented errors and are not generated; controls of "
-    "ctrllimited actuators are kept eps-inside the range (one-sided differencing at the limit is not documented in the rst)",
+    "a control on (or within eps of) a bound of its ctrlrange is differentiated on the feasible side only, in the engine and in the twin reference alike (derivative of the clamped map from inside the range; the rst does not describe this case, the source does)",
     "with mjDSBL_WARMSTART qacc_warmstart is not an input (functions_override.rst 'If warm-starts are not disabled, the warm-start "
     "accelerations ... are loaded'): it is excluded from the state-preservation comparison only then",
     "mj_integratePos / mj_differentiatePos (C24's subject) and mj_step / mj_forward / mj_inverse themselves are trusted: the twin "
@@ -565,13 +565,32 @@ def twin_transition(L, m, T, s0, eps, centered):
         A[:, nv + i], Cm[:, nv + i] = column(addto("qvel", i, 1), addto("qvel", i, -1))
     for i in range(na):
         A[:, 2 * nv + i], Cm[:, 2 * nv + i] = column(addto("act", i, 1), addto("act", i, -1))
+    # controls of ctrllimited actuators are differentiated inside the feasible set: a nudge that would leave ctrlrange is not taken
+    # (the clamped map is flat there) and the difference is formed on the feasible side only - the derivative from inside the range
+    lim = m["actuator_ctrllimited"] if nu else np.zeros(0)
+    rg = m["actuator_ctrlrange"].reshape(-1, 2) if nu else np.zeros((0, 2))
+    clamp_on = not (int(m.opt["disableflags"]) & int(E.mjDSBL_CLAMPCTRL))
+    T.set_state(s0, INT)
+    u0 = T["ctrl"].copy()
     for i in range(nu):
-        B[:, i], Dm[:, i] = column(addto("ctrl", i, 1), addto("ctrl", i, -1))
+        limited = bool(lim[i]) and clamp_on if i < len(lim) else False
+        fwd_ok = (not limited) or (rg[i, 0] <= u0[i] <= rg[i, 1] and u0[i] + eps <= rg[i, 1])
+        bwd_ok = (not limited) or (rg[i, 0] <= u0[i] <= rg[i, 1] and u0[i] - eps >= rg[i, 0])
+        if fwd_ok and (bwd_ok or not centered):
+            B[:, i], Dm[:, i] = column(addto("ctrl", i, 1), addto("ctrl", i, -1))
+        elif fwd_ok:                                    # centred requested, backward side infeasible: forward difference
+            yp, zp = run(addto("ctrl", i, 1))
+            B[:, i], Dm[:, i] = sdiff(L, m, y0, yp, eps), (zp - z0) / eps
+        elif bwd_ok:                                    # forward side infeasible: backward difference
+            ym, zm = run(addto("ctrl", i, -1))
+            B[:, i], Dm[:, i] = sdiff(L, m, ym, y0, eps), (z0 - zm) / eps
+        else:
+            B[:, i], Dm[:, i] = 0.0, 0.0              # range narrower than eps or control outside its range: no feasible nudge
     T.set_state(s0, INT)
     return A, B, Cm, Dm, float(np.max(np.abs(y0))) if len(y0) else 0.0, float(np.max(np.abs(z0))) if ns else 0.0
 
 
-def skipstage_column(L, m, T, s0, eps, centered, name, i, stage=None):
+def skipstage_column(L, m, T, s0, eps, centered, name, i, stage=None, side=None):
     """diagnostic only: the same column formed with mj_stepSkip(stage) after an unperturbed step. stage = mjSTAGE_VEL (default, what
     mjd_transitionFD does for ctrl/act columns): mj_implicitSkip runs with skipfactor = 1, i.e. with the factorisation of M - h*qDeriv
     left over from the unperturbed controls/activations. stage = mjSTAGE_POS: the same skipping of the position stage (valid for a
@@ -585,12 +604,13 @@ def skipstage_column(L, m, T, s0, eps, centered, name, i, stage=None):
             L.call("mj_stepSkip", m, T, int(stage if sgn else E.mjSTAGE_NONE), 1, ret=None)
             return phys(m, T)
         y0 = run(0)
-        yp = run(1)
-        if centered:
-            ym = run(-1)
-            col = sdiff(L, m, ym, yp, 2 * eps)
+        mode = side or ("centred" if centered else "forward")
+        if mode == "centred":
+            col = sdiff(L, m, run(-1), run(1), 2 * eps)
+        elif mode == "backward":
+            col = sdiff(L, m, run(-1), y0, eps)
         else:
-            col = sdiff(L, m, y0, yp, eps)
+            col = sdiff(L, m, y0, run(1), eps)
         T.set_state(s0, INT)
         return col
     except (drv.MjError, AttributeError):
@@ -650,6 +670,23 @@ def check_transition(L, m, P, c, wit, rng, si):
         eps = float(rng.choice([1e-6, 1e-5]))
         set_random_inputs(rng, m, d, inside=2 * eps)
         d.step(int(rng.integers(0, 3)))           # leaves a warm-start and a non-zero time
+        # a third of the cases put limited controls exactly on (or within eps/2 of) a bound of their range: the engine has to
+        # difference on the feasible side there
+        if nu and rng.random() < 0.34:
+            lim_, rg_ = m["actuator_ctrllimited"], m["actuator_ctrlrange"].reshape(-1, 2)
+            hit = False
+            for i in range(min(nu, len(lim_))):
+                if lim_[i] and rg_[i, 1] - rg_[i, 0] > 10 * eps and rng.random() < 0.7:
+                    side = int(rng.integers(0, 2))
+                    d["ctrl"][i] = rg_[i, side] + (0.0 if rng.random() < 0.6 else (-1 if side else 1) * 0.4 * eps)
+                    hit = True
+            if hit:
+                P.count("transition_cases_with_ctrl_on_range_bound")
+        bound_cols = []
+        if nu:
+            lim_, rg_ = m["actuator_ctrllimited"], m["actuator_ctrlrange"].reshape(-1, 2)
+            u_ = d["ctrl"]
+            bound_cols = [i for i in range(min(nu, len(lim_))) if lim_[i] and (u_[i] + eps > rg_[i, 1] or u_[i] - eps < rg_[i, 0])]
         centered = int(rng.integers(0, 2))
         which = int(rng.integers(0, 4))            # which outputs are requested (NULL for the others)
         if unstable(m, d):
@@ -688,6 +725,11 @@ def check_transition(L, m, P, c, wit, rng, si):
                 continue
             tol = 1e-9 * max(float(np.max(np.abs(want))), 1.0) + 200 * EPSM * max(mag, 1.0) / eps
             e = np.abs(got - want)
+            if nm in ("B", "D") and bound_cols:
+                # one-sided columns at a range bound difference the unperturbed step (full pipeline) against a skip-stage step: the solver
+                # tolerance no longer cancels between the two terms as it does between two skip-stage steps of an interior column
+                e = e.copy()
+                e[:, bound_cols] /= 8.0
             P.note_max("max:transition_err_over_tol", float(np.max(e / tol)))
             if (e > tol).any():
                 i, j = [int(x) for x in np.argwhere(e > tol)[0]]
@@ -703,9 +745,16 @@ def check_transition(L, m, P, c, wit, rng, si):
                     # and (2) counterfactual: the same skip of the position stage with a fresh factorisation, mj_stepSkip(mjSTAGE_POS),
                     # reproduces the twin's column - so the mismatch is due to skipfactor alone, not to anything else on the skip path
                     arr, k = ("act", j - 2 * nv) if blk == "a" else ("ctrl", j)
-                    col = skipstage_column(L, m, T, s_full, eps, centered, arr, k)
-                    colp = skipstage_column(L, m, T, s_full, eps, centered, arr, k, stage=E.mjSTAGE_POS)
-                    if col is not None and colp is not None and np.all(np.abs(col - got[:, j]) <= tol) and np.all(np.abs(colp - want[:, j]) <= tol):
+                    side = None
+                    if blk == "u" and k in bound_cols:
+                        # feasible-side differencing at a range bound (same rule as twin_transition)
+                        fwd_ok = d["ctrl"][k] + eps <= m["actuator_ctrlrange"].reshape(-1, 2)[k, 1]
+                        bwd_ok = d["ctrl"][k] - eps >= m["actuator_ctrlrange"].reshape(-1, 2)[k, 0]
+                        side = ("centred" if centered else "forward") if (fwd_ok and (bwd_ok or not centered)) else ("forward" if fwd_ok else "backward")
+                    col = skipstage_column(L, m, T, s_full, eps, centered, arr, k, side=side)
+                    colp = skipstage_column(L, m, T, s_full, eps, centered, arr, k, stage=E.mjSTAGE_POS, side=side)
+                    ctol = tol * (8.0 if (blk == "u" and k in bound_cols) else 1.0)
+                    if col is not None and colp is not None and np.all(np.abs(col - got[:, j]) <= ctol) and np.all(np.abs(colp - want[:, j]) <= ctol):
                         P.count("stale_factorization_confirmed")
                         P.violation("mjd_transitionFD:ctrl/act-columns-reuse-stale-implicit-factorization(M-hD-depends-on-ctrl/act)", dd)
                         continue
